@@ -174,6 +174,13 @@ theorem canonical_fixed_point (tbl : Table) (d idx : Nat) (fs : List (Nat × Lis
     canonical tbl idx (encode (.node fs)) = .ok (encode (.node fs)) :=
   canonical_of_ser tbl d idx fs _ (wf_ser tbl d idx fs h)
 
+/-- **Idempotent on every accepted buffer**: whatever `b` is, if `canonical_raw` accepts it (output below 4 GiB), the
+output is a fixed point. (Proved by showing that what the parser returns is, up to entries without values, a
+well-formed value.) -/
+theorem canonical_idempotent (tbl : Table) (idx : Nat) (b c : Bytes) (h : canonical tbl idx b = .ok c)
+    (hsize : c.length < 2 ^ 32) : canonical tbl idx c = .ok c :=
+  canonical_idem tbl idx b c h hsize
+
 /-- **Injective.** Two well-formed values with the same encoding are the same value: equal bytes (hence equal hashes
 and signature inputs) mean equal messages, and — with `canonical_of_any_reserialisation` — conversely. -/
 theorem encode_injective (tbl : Table) (d₁ d₂ idx : Nat) (fs₁ fs₂ : List (Nat × List Tree))
@@ -208,12 +215,12 @@ theorem exWF : WF exTable 1 0 exValue := by
   rcases hp with rfl | rfl
   · refine ⟨exTable[0].fields[0], rfl, ⟨rfl, Or.inr rfl⟩, by decide, by simp, by simp, ?_, fun _ => by decide⟩
     intro v hv; simp at hv; subst hv
-    exact ⟨5, by decide, by decide⟩
+    exact ⟨5, by decide, rfl⟩
   · refine ⟨exTable[0].fields[1], rfl, ⟨rfl, Or.inl rfl⟩, by decide, by simp, fun _ => rfl, ?_, fun _ => by decide⟩
     intro v hv; simp at hv
     rcases hv with rfl | rfl
-    · exact ⟨1, by decide, by decide⟩
-    · exact ⟨2, by decide, by decide⟩
+    · exact ⟨1, by decide, rfl⟩
+    · exact ⟨2, by decide, rfl⟩
 
 example : decode exTable 1 0 (encode (.node exValue)) = .ok (.node exValue) :=
   decode_encode_id exTable 1 0 exValue exWF 1 (Nat.le_refl _)
@@ -281,7 +288,8 @@ theorem duration_roundtrip (d : Dur) (hv : d.Valid) (hmin : i64Min < d.secs ∨ 
   simp only [durBuild, nanosPerSec] at *
   split <;> simp <;> omega
 
-example : (⟨-5, -3⟩ : Dur).Valid ∧ (i64Min < (⟨-5, -3⟩ : Dur).secs ∨ 0 ≤ (⟨-5, -3⟩ : Dur).nanos) := by decide
+example : (⟨-5, -3⟩ : Dur).Valid ∧ (i64Min < (⟨-5, -3⟩ : Dur).secs ∨ 0 ≤ (⟨-5, -3⟩ : Dur).nanos) :=
+  ⟨⟨by decide, by decide, by decide, by decide, by decide, by decide⟩, Or.inl (by decide)⟩
 
 /-- the corner the property excludes is excluded for a reason: `(i64::MIN s, −1 ns)` does not survive -/
 theorem duration_min_excluded :
